@@ -210,6 +210,14 @@ func (h *Handler) ServeHTTP(responseWriter http.ResponseWriter, request *http.Re
 		return
 	}
 
+	if grpc, ok := protocolHandler.(*grpcHandler); ok && !grpc.web && !request.ProtoAtLeast(1, 1) {
+		// gRPC reports the outcome of every call in HTTP trailers. An HTTP/1.0
+		// response has none (net/http drops them silently), so whatever happened
+		// would look like a response that stopped short.
+		responseWriter.WriteHeader(http.StatusHTTPVersionNotSupported)
+		return
+	}
+
 	// Establish a stream and serve the RPC.
 	ctx, cancel, timeoutErr := protocolHandler.SetTimeout(request)
 	if timeoutErr != nil {
